@@ -26,10 +26,11 @@ CONSTANTS Mode,       \* "C24", "C27", "C31", "C32": configuration universe and 
           AdvBudget   \* number of adversary actions per behaviour
 
 VARIABLES cfgC, cfgS, au, conn, cst, sst, c2s, s2c, trC, trS, sessC, sessS, cache, keysS, issued,
-          presented, decision, adv, closed
+          presented, decision, adv, closed,
+          verify     \* the client of this connection verifies the server (not InsecureSkipVerify)
 
 vars == <<cfgC, cfgS, au, conn, cst, sst, c2s, s2c, trC, trS, sessC, sessS, cache, keysS, issued,
-          presented, decision, adv, closed>>
+          presented, decision, adv, closed, verify>>
 
 -----------------------------------------------------------------------------
 (* configuration universes *)
@@ -46,7 +47,8 @@ CCfgs ==
     [] OTHER        -> { [BaseC EXCEPT !.max = 12, !.suites = <<49199, 47>>], BaseC }
 SCfgs ==
   CASE Mode = "C24" -> { BaseS, [BaseS EXCEPT !.max = 12, !.prefer = TRUE, !.suites = <<156, 49199, 47>>],
-                         [BaseS EXCEPT !.key = "P", !.min = 12, !.tickets = FALSE], [BaseS EXCEPT !.max = 11] }
+                         [BaseS EXCEPT !.key = "P", !.min = 12, !.tickets = FALSE], [BaseS EXCEPT !.max = 11],
+                         [BaseS EXCEPT !.auth = 1], [BaseS EXCEPT !.auth = 4] }   \* client certificate requested / required
     [] Mode = "C27" -> { [BaseS EXCEPT !.auth = a] : a \in 0..4 }
     [] OTHER        -> { BaseS }
 
@@ -55,7 +57,8 @@ SCfgs ==
 GoodAu == [scertKey |-> "ks", scertValid |-> TRUE, skey |-> "ks",
            ccert |-> FALSE, ccertKey |-> "kc", ccertValid |-> TRUE, ckey |-> "kc"]
 Aus ==
-  IF Mode # "C27" THEN {GoodAu}
+  IF Mode = "C24" THEN {GoodAu, [GoodAu EXCEPT !.ccert = TRUE]}
+  ELSE IF Mode # "C27" THEN {GoodAu}
   ELSE { GoodAu,
          [GoodAu EXCEPT !.scertValid = FALSE],                  \* UntrustedRoot / Expired / WrongName
          [GoodAu EXCEPT !.skey = "kx"],                         \* WrongKey
@@ -63,7 +66,9 @@ Aus ==
          [GoodAu EXCEPT !.ccert = TRUE, !.ccertValid = FALSE],  \* untrusted / expired client certificate
          [GoodAu EXCEPT !.ccert = TRUE, !.ckey = "ky"] }        \* ClientWrongKey
 
-MaxConn == IF Mode \in {"C24", "C31"} THEN 2 ELSE 1
+MaxConn == IF Mode \in {"C24", "C31", "C27"} THEN 2 ELSE 1
+\* C27: multi-step authentication histories - each connection's client verifies or not
+VerifyChoices == IF Mode = "C27" THEN BOOLEAN ELSE {TRUE}
 TicketKeys == {"t1", "t2"}
 
 NegTab == [c \in CCfgs, s \in SCfgs |-> Negotiate(c, s, 0)]
@@ -89,7 +94,8 @@ Waiting(st) == st \notin {"start", "done", "failed"}
 
 -----------------------------------------------------------------------------
 Init ==
-  /\ cfgC \in CCfgs /\ cfgS \in SCfgs /\ au \in Aus
+  /\ cfgC \in CCfgs /\ cfgS \in SCfgs /\ au \in Aus /\ verify \in VerifyChoices
+  /\ (Mode = "C24" /\ au.ccert => cfgS.auth >= 1)
   /\ conn = 1 /\ cst = "start" /\ sst = "start"
   /\ c2s = <<>> /\ s2c = <<>> /\ trC = <<>> /\ trS = <<>>
   /\ sessC = Null /\ sessS = Null /\ cache = Null
@@ -102,6 +108,7 @@ ClientHelloMsg ==
   LET offer == ClientOffer(cfgC)
       use == cfgC.tickets /\ ~IsNull(cache) /\ cache.st.vers \in ClientVersions(cfgC)
              /\ (cache.st.vers = 13 \/ cache.st.suite \in Rng(offer))        \* loadSession
+             /\ (verify => cache.verified)   \* "the original connection had InsecureSkipVerify, while this doesn't"
   IN [t |-> "CH", vers |-> ClientVersions(cfgC), suites |-> offer, alpn |-> cfgC.alpn,
       curves |-> CurvesOf(cfgC), share |-> <<"cx", conn>>, tsup |-> cfgC.tickets,
       ticket |-> IF use THEN cache.ticket ELSE Null,
@@ -138,7 +145,7 @@ C_Full12(ch, f) ==
       skx == Find(f, "SKX")
       hasCR == ~IsNull(Find(f, "CR"))
       shape == <<"SH", "CERT">> \o Opt(kx # "RSA", "SKX") \o Opt(hasCR, "CR") \o <<"SHD">>
-      certOK == cert.valid
+      certOK == ~verify \/ cert.valid          \* verifyServerCertificate unless InsecureSkipVerify
       skxOK == kx = "RSA" \/ skx.sig = Sig(cert.key, <<ch.rnd, sh.rnd, skx.pub>>)
       secret == IF kx = "RSA" THEN <<"pms", conn>> ELSE DH(<<"cx", conn>>, skx.pub)
       ms == [secret |-> secret, cr |-> ch.rnd, sr |-> sh.rnd]
@@ -154,7 +161,7 @@ C_Full12(ch, f) ==
      ELSE /\ c2s' = Append(c2s, Opt(hasCR, ccert) \o <<ckx>> \o Opt(hasCR /\ au.ccert, ccv) \o <<fin>>)
           /\ trC' = tr3 \o <<fin>>
           /\ sessC' = [t |-> "sess", vers |-> sh.vers, suite |-> sh.suite, alpn |-> sh.alpn, resumed |-> FALSE,
-                       ms |-> ms, ekm |-> ms, nst |-> sh.nst]
+                       ms |-> ms, ekm |-> ms, nst |-> sh.nst, verified |-> verify, chainOK |-> cert.valid]
           /\ cst' = "wait_sfin" /\ UNCHANGED cache
 
 \* TLS <= 1.2, server resumed the session: ServerHello [NewSessionTicket] Finished
@@ -172,8 +179,8 @@ C_Resume12(ch, f) ==
      ELSE /\ c2s' = Append(c2s, <<cfin>>)
           /\ trC' = tr1 \o <<fin, cfin>>
           /\ sessC' = [t |-> "sess", vers |-> sh.vers, suite |-> sh.suite, alpn |-> sh.alpn, resumed |-> TRUE,
-                       ms |-> st.ms, ekm |-> ms, nst |-> FALSE]
-          /\ cache' = IF sh.nst THEN [t |-> "cache", ticket |-> nst.ticket, st |-> st] ELSE cache
+                       ms |-> st.ms, ekm |-> ms, nst |-> FALSE, verified |-> cache.verified, chainOK |-> cache.chainOK]
+          /\ cache' = IF sh.nst THEN [cache EXCEPT !.ticket = nst.ticket] ELSE cache
           /\ cst' = "done"
 
 \* TLS 1.3: ServerHello EncryptedExtensions [CertificateRequest Certificate CertificateVerify] Finished
@@ -188,7 +195,7 @@ C_TLS13(ch, f) ==
                ELSE <<"SH", "EE">> \o Opt(hasCR, "CR") \o <<"CERT", "CV", "FIN">>
       pskOK == ~sh.psk \/ (~IsNull(ch.ticket) /\ Hash384(cache.st.suite) = Hash384(sh.suite))
       ms == [secret |-> DH(<<"cx", conn>>, sh.share), psk |-> IF sh.psk THEN cache.st.ms ELSE Null]
-      authOK == sh.psk \/ (cert.valid /\ cv.sig = Sig(cert.key, trC \o Before(f, "CV")))
+      authOK == sh.psk \/ ((~verify \/ cert.valid) /\ cv.sig = Sig(cert.key, trC \o Before(f, "CV")))
       tr1 == trC \o f
       ccert == [t |-> "CCERT", has |-> au.ccert, key |-> au.ccertKey, valid |-> au.ccertValid] @@ PB
       ccv == [t |-> "CCV", sig |-> Sig(au.ckey, tr1 \o <<ccert>>)] @@ PB
@@ -199,7 +206,9 @@ C_TLS13(ch, f) ==
      ELSE /\ c2s' = Append(c2s, mine \o <<cfin>>)
           /\ trC' = tr1 \o mine \o <<cfin>>
           /\ sessC' = [t |-> "sess", vers |-> 13, suite |-> sh.suite, alpn |-> ee.alpn, resumed |-> sh.psk,
-                       ms |-> ms, ekm |-> [ms |-> ms, tr |-> tr1], nst |-> FALSE]
+                       ms |-> ms, ekm |-> [ms |-> ms, tr |-> tr1], nst |-> FALSE,
+                       verified |-> IF sh.psk THEN cache.verified ELSE verify,
+                       chainOK |-> IF sh.psk THEN cache.chainOK ELSE cert.valid]
           /\ cst' = "done" /\ UNCHANGED cache
 
 C_RecvServerFlight ==
@@ -226,7 +235,7 @@ C_RecvServerFinished ==
            ELSE IF fin.mac # Mac(sessC.ms, "s", trC \o Before(f, "FIN")) THEN C_Fail
            ELSE /\ cst' = "done" /\ trC' = trC \o f /\ UNCHANGED <<c2s, sessC>>
                 /\ cache' = IF sessC.nst /\ cfgC.tickets
-                            THEN [t |-> "cache", ticket |-> nst.ticket,
+                            THEN [t |-> "cache", ticket |-> nst.ticket, verified |-> sessC.verified, chainOK |-> sessC.chainOK,
                                   st |-> [t |-> "st", vers |-> sessC.vers, suite |-> sessC.suite, ms |-> sessC.ms]]
                             ELSE cache
   /\ UNCHANGED <<cfgC, cfgS, au, conn, sst, trS, sessS, keysS, issued, presented, decision, adv,
@@ -238,7 +247,7 @@ C_RecvTicket13 ==
   /\ LET f == Head(s2c) IN
      /\ s2c' = Tail(s2c)
      /\ cache' = IF Types(f) = <<"NST">> /\ ~AnyBad(f) /\ cfgC.tickets
-                 THEN [t |-> "cache", ticket |-> f[1].ticket,
+                 THEN [t |-> "cache", ticket |-> f[1].ticket, verified |-> sessC.verified, chainOK |-> sessC.chainOK,
                        st |-> [t |-> "st", vers |-> 13, suite |-> sessC.suite, ms |-> sessC.ekm]]
                  ELSE cache
   /\ UNCHANGED <<cfgC, cfgS, au, conn, cst, sst, c2s, trC, trS, sessC, sessS, keysS, issued,
@@ -417,6 +426,7 @@ NextConnection ==
   /\ conn' = conn + 1 /\ cst' = "start" /\ sst' = "start"
   /\ c2s' = <<>> /\ s2c' = <<>> /\ trC' = <<>> /\ trS' = <<>> /\ sessC' = Null /\ sessS' = Null
   /\ presented' = Null /\ decision' = "none" /\ closed' = FALSE
+  /\ verify' \in VerifyChoices
   /\ UNCHANGED <<cfgC, cfgS, au, cache, keysS, issued, adv>>
 
 Between == Terminal /\ conn < MaxConn /\ Mode = "C31"
@@ -492,10 +502,10 @@ Endpoints == C_SendCH \/ C_RecvServerFlight \/ C_RecvServerFinished \/ C_RecvTic
              \/ S_RecvClientHello \/ S_RecvClientFlight12 \/ S_RecvClientFinished12 \/ S_RecvClientFlight13
              \/ C_SeesClose \/ S_SeesClose \/ C_SeesAlert \/ S_SeesAlert
 
-Next == Endpoints \/ Adversary \/ EnvClose \/ NextConnection \/ Rotate \/ DropOld
+Next == ((Endpoints \/ Adversary \/ EnvClose \/ Rotate \/ DropOld) /\ UNCHANGED verify) \/ NextConnection
 
 Spec == Init /\ [][Next]_vars
-FairSpec == Spec /\ WF_vars(Endpoints)
+FairSpec == Spec /\ WF_vars(Endpoints /\ UNCHANGED verify)
 
 -----------------------------------------------------------------------------
 (* properties *)
@@ -521,9 +531,21 @@ ClientNeverBelowDemand == cst = "done" => sessC.vers = NegTab[cfgC, cfgS].vers
 IsPrefixOf(a, b) == Len(a) <= Len(b) /\ SubSeq(b, 1, Len(a)) = a
 TamperNeverCompletes == (cst = "done" \/ sst = "done") => IsPrefixOf(trC, trS) \/ IsPrefixOf(trS, trC)
 
+\* the exporter of a TLS 1.3 connection is the RFC 8446 7.5 term: master secret and the transcript
+\* up to and including the server Finished - on both sides, whatever follows (client certificate)
+UpToServerFinished(tr) == SubSeq(tr, 1, CHOOSE i \in 1..Len(tr) : tr[i].t = "FIN" /\ \A j \in 1..(i - 1) : tr[j].t # "FIN")
+ExporterIsRFCTerm ==
+  /\ cst = "done" /\ sessC.vers = 13 => sessC.ekm.tr = UpToServerFinished(trC)
+  /\ sst = "done" /\ sessS.vers = 13 => sessS.ekm.tr = UpToServerFinished(trS)
+
 \* C27
+\* every completed connection of a verifying client, resumed or not, rests on a chain that verified
+\* (under a verifying configuration) - a session established without verification never lets a
+\* verifying client complete
 ClientDoneMeansServerAuthentic ==
-  cst = "done" /\ ~sessC.resumed => au.scertValid /\ au.skey = au.scertKey
+  /\ cst = "done" /\ verify => sessC.chainOK /\ sessC.verified
+  /\ cst = "done" /\ verify /\ ~sessC.resumed => au.scertValid
+  /\ cst = "done" /\ ~sessC.resumed => au.skey = au.scertKey
 ServerDoneMeansClientAuthentic ==
   sst = "done" /\ ~sessS.resumed =>
      /\ (cfgS.auth \in {2, 4} => au.ccert)
@@ -552,7 +574,8 @@ ResumedBothAgree == BothDone /\ sessS.resumed => sessC.resumed /\ sessC.ekm = se
 \* C32 / liveness
 ClosedLeadsToReturned == closed ~> (Terminal \/ ~closed)
 HonestCompletes ==
-  (AdvBudget = 0) => <>(Terminal /\ (NegTab[cfgC, cfgS].mode = "must" /\ ~closed /\ Mode # "C27" => BothDone))
+  (AdvBudget = 0) => <>(Terminal /\ (NegTab[cfgC, cfgS].mode = "must" /\ ~closed /\ Mode # "C27"
+                                      /\ (cfgS.auth \in {2, 4} => au.ccert) => BothDone))
 
 -----------------------------------------------------------------------------
 (* reachability witnesses (vacuity guard): the interesting situations must occur in the explored
@@ -576,11 +599,14 @@ Witness(k) ==
     [] k = 25 -> decision = "full" /\ ~IsNull(presented) /\ presented.k = "foreign"
     [] k = 26 -> closed /\ Terminal
     [] k = 27 -> cst = "failed" /\ sst = "failed" /\ adv < AdvBudget
-Wanted == CASE Mode = "C24" -> 11..16
-            [] Mode = "C27" -> {11, 12} \cup (17..21)
+    [] k = 28 -> conn = 2 /\ verify /\ ~IsNull(cache) /\ ~cache.verified /\ Len(trC) >= 1 /\ IsNull(trC[1].ticket)  \* unverified session refused
+    [] k = 29 -> BothDone /\ conn = 2 /\ verify /\ sessC.resumed                                              \* verified session resumed
+    [] k = 30 -> BothDone /\ sessC.vers = 13 /\ au.ccert /\ cfgS.auth >= 1                                      \* 1.3 with client certificate
+Wanted == CASE Mode = "C24" -> (11..16) \cup {30}
+            [] Mode = "C27" -> {11, 12} \cup (17..21) \cup {28, 29}
             [] Mode = "C31" -> {13, 14} \cup (22..25)
             [] Mode = "C32" -> {11, 12, 26, 27}
-ProbeInit == Init /\ \A k \in 11..27 : TLCSet(k, FALSE)
+ProbeInit == Init /\ \A k \in 11..30 : TLCSet(k, FALSE)
 ProbeSpec == ProbeInit /\ [][Next]_vars
 Probe == \A k \in Wanted : Witness(k) => TLCSet(k, TRUE)
 Reached == LET missing == {k \in Wanted : ~TLCGet(k)} IN
